@@ -29,7 +29,7 @@ ASSUMPTIONS = ['one generator resume counts as one invocation (CPython reports c
 REQUIRE = {'openings': 1500, 'span_openings': 600, 'capture_openings': 300, 'recursive_openings': 60,
            'openings_in_threads': 40, 'exception_exits': 60,
            'withdrawn_mid_flight': 30, 'several_span_processors': 100,
-           'openings_overlapping_same_function_in_another_thread': 40, 'deep_recursion_cases': 10, 'with_a_declining_span_processor': 30, 'snapshot_ahead_of_span': 15, 'with_spans_that_are_falsy_when_new': 30, 'captures_on_indirectly_recursive_functions': 10}
+           'openings_overlapping_same_function_in_another_thread': 40, 'deep_recursion_cases': 10, 'with_a_declining_span_processor': 30, 'snapshot_ahead_of_span': 15, 'with_spans_that_are_falsy_when_new': 30, 'captures_on_indirectly_recursive_functions': 10, 'captures_on_functions_sharing_their_name': 10}
 
 
 def plan(tier, seed):
@@ -39,7 +39,7 @@ def plan(tier, seed):
 
 FORCE = [['recursion'], ['mutual'], ['nested_calls'], ['try_caught'], ['finally_reraise'], ['propagate'],
          ['gen_full'], ['gen_send_throw'], ['yield_from'], ['threads'], ['method_exc'], ['else_finally'],
-         ['uncaught_in_gen'], ['with_cm'], ['recursion', 'threads'], ['klass'], ['lockstep'], ['lockstep', 'mutual'], ['deep_recursion']]
+         ['uncaught_in_gen'], ['with_cm'], ['recursion', 'threads'], ['klass'], ['lockstep'], ['lockstep', 'mutual'], ['deep_recursion'], ['same_name']]
 
 
 class Inv:
@@ -83,6 +83,17 @@ def case_deferred(seed, out, spec, wd, idx):
         fc = r.pick(['-1', '-1', '1'])
         common = {'fire_count': fc, 'fire_period': '0'}
         tp_id = 'tp%d' % i
+        twins = [f for f in funcs if f.startswith('run_')]
+        if i == 0 and twins and not deep:
+            # two different functions of one file that share their name, one calling the other: the outer one's pending
+            # capture is completed by its own return
+            f = twins[0]
+            trigs.append(direct_trigger(tp_id, prog.base, None, 'Snapshot',
+                                        dict(common, fire_count='-1', stage='method_capture', frame_type='no_frame'),
+                                        function=f))
+            tps.append((tp_id, 'mcapture', f, '-1'))
+            out.count('captures_on_functions_sharing_their_name')
+            continue
         mutual = [f for f in funcs if f.startswith(('is_even_', 'is_odd_'))]
         if i == 0 and mutual and not deep and idx % 2 == 1:
             # indirect recursion: the same function is running again further down, with another function between
